@@ -444,6 +444,179 @@ func genRpcFacts(root *pkgSrc) {
 		}
 		fmt.Fprintf(&b, "  (%s, %s)%s  -- %s\n", leanText(x.fn), leanText(x.text), sep, x.text)
 	}
+	b.WriteString("]\n\n")
+
+	// 7. manager_lifecycle.go: calls to methods of lifecycleManager that (transitively) acquire m.mu, made at a point
+	// where m.mu MAY be held (sync.RWMutex is not reentrant: a recursive RLock dead-locks as soon as a writer queues up
+	// between the two). May-hold: a lexical walk in which a lock taken on some way to a point counts as held there.
+	type lcCall struct {
+		caller, callee string
+		line           int
+	}
+	lockOp := func(e ast.Expr) string { // "lock" | "unlock" | ""
+		call, ok := e.(*ast.CallExpr)
+		if !ok {
+			return ""
+		}
+		sel, ok := call.Fun.(*ast.SelectorExpr)
+		if !ok {
+			return ""
+		}
+		if rpcSquash(root.text(sel.X)) != "m.mu" {
+			return ""
+		}
+		switch sel.Sel.Name {
+		case "Lock", "RLock":
+			return "lock"
+		case "Unlock", "RUnlock":
+			return "unlock"
+		}
+		return ""
+	}
+	locksDirectly := map[string]bool{}
+	calls := map[string][]string{} // caller -> lifecycleManager methods it calls (anywhere)
+	var heldCalls []lcCall
+	if f := root.files["manager_lifecycle.go"]; f != nil {
+		for _, d := range f.Decls {
+			fd, ok := d.(*ast.FuncDecl)
+			if !ok || fd.Body == nil || !strings.HasPrefix(funcName(fd), "lifecycleManager.") {
+				continue
+			}
+			name := strings.TrimPrefix(funcName(fd), "lifecycleManager.")
+			var walk func(n ast.Node, held bool) bool
+			methodCalls := func(n ast.Node, held bool) {
+				ast.Inspect(n, func(x ast.Node) bool {
+					if _, isLit := x.(*ast.FuncLit); isLit {
+						return false // runs later, possibly elsewhere
+					}
+					if call, ok := x.(*ast.CallExpr); ok {
+						if sel, ok := call.Fun.(*ast.SelectorExpr); ok {
+							if id, ok := sel.X.(*ast.Ident); ok && id.Name == "m" {
+								calls[name] = append(calls[name], sel.Sel.Name)
+								if held {
+									heldCalls = append(heldCalls, lcCall{name, sel.Sel.Name, root.line(call)})
+								}
+							}
+						}
+					}
+					return true
+				})
+			}
+			// walk returns whether m.mu may be held after n
+			walk = func(n ast.Node, held bool) bool {
+				switch x := n.(type) {
+				case *ast.BlockStmt:
+					for _, st := range x.List {
+						held = walk(st, held)
+					}
+					return held
+				case *ast.ExprStmt:
+					switch lockOp(x.X) {
+					case "lock":
+						locksDirectly[name] = true
+						return true
+					case "unlock":
+						return false
+					}
+					methodCalls(x, held)
+					return held
+				case *ast.DeferStmt:
+					if lockOp(x.Call) == "unlock" {
+						return held // released at the end of the function only
+					}
+					methodCalls(x, held)
+					return held
+				case *ast.IfStmt:
+					if x.Init != nil {
+						held = walk(x.Init, held)
+					}
+					methodCalls(x.Cond, held)
+					a := walk(x.Body, held)
+					b2 := held
+					if x.Else != nil {
+						b2 = walk(x.Else, held)
+					}
+					return a || b2
+				case *ast.ForStmt:
+					return walk(x.Body, held) || held
+				case *ast.RangeStmt:
+					methodCalls(x.X, held)
+					return walk(x.Body, held) || held
+				case *ast.SwitchStmt, *ast.TypeSwitchStmt, *ast.SelectStmt:
+					out := held
+					ast.Inspect(x, func(y ast.Node) bool {
+						switch cc := y.(type) {
+						case *ast.CaseClause:
+							h := held
+							for _, st := range cc.Body {
+								h = walk(st, h)
+							}
+							out = out || h
+							return false
+						case *ast.CommClause:
+							h := held
+							for _, st := range cc.Body {
+								h = walk(st, h)
+							}
+							out = out || h
+							return false
+						}
+						return true
+					})
+					return out
+				default:
+					if n != nil {
+						methodCalls(n, held)
+					}
+					return held
+				}
+			}
+			walk(fd.Body, false)
+		}
+	} else {
+		heldCalls = append(heldCalls, lcCall{"?", "manager_lifecycle.go not found", 0})
+		locksDirectly["manager_lifecycle.go not found"] = true
+	}
+	// transitive closure: which methods acquire m.mu
+	acquires := map[string]bool{}
+	for k := range locksDirectly {
+		acquires[k] = true
+	}
+	for changed := true; changed; {
+		changed = false
+		for caller, cs := range calls {
+			if acquires[caller] {
+				continue
+			}
+			for _, c := range cs {
+				if acquires[c] {
+					acquires[caller], changed = true, true
+					break
+				}
+			}
+		}
+	}
+	var nested []lcCall
+	for _, c := range heldCalls {
+		if acquires[c.callee] {
+			nested = append(nested, c)
+		}
+	}
+	sort.SliceStable(nested, func(i, j int) bool { return nested[i].line < nested[j].line })
+	var lockers []string
+	for k := range locksDirectly {
+		lockers = append(lockers, k)
+	}
+	sort.Strings(lockers)
+	fmt.Fprintf(&b, "/-- the methods of lifecycleManager that lock / read-lock m.mu themselves -/\ndef rpcLifecycleLockers : List Text := [%s]\n\n", rpcLeanTexts(lockers))
+	b.WriteString("/-- calls made where m.mu may be held to a lifecycleManager method that (transitively) acquires m.mu: (caller, callee) -/\ndef rpcLifecycleNestedLocks : List (Text × Text) := [\n")
+	for i, x := range nested {
+		sep := ","
+		if i == len(nested)-1 {
+			sep = ""
+		}
+		fmt.Fprintf(&b, "  (%s, %s)%s  -- %s -> %s (line %d)\n", leanText(x.caller), leanText(x.callee), sep, x.caller, x.callee, x.line)
+	}
 	b.WriteString("]\n\nend Mcp.Gen\n")
 	writeIfChanged("RpcFacts.lean", b.String())
 }
